@@ -214,7 +214,7 @@ fn drain_closure<C: FnMut(Event<T>, &mut ())>(capacity: usize, receiver: &mpsc::
     (clear_readiness, disconnected)
 //@ endslice
 
-//@ slice src/sources/channel.rs / impl EventSource for Channel<T> / fn process_events :: stmts <<if disconnected {>> .. <<if disconnected {>> props=C04,C02 name=Channel::process_events::post_drain
+//@ slice src/sources/channel.rs / impl EventSource for Channel<T> / fn process_events :: stmts <<if disconnected {>> .. <<if disconnected {>> props=C04,C02,C12 name=Channel::process_events::post_drain
 //@ sig
 /// S1 slice: the last statement of Channel::process_events (what happens after the drain). Free variables
 /// `disconnected`, `clear_readiness`, `action` (the PingSource's own post-action) become parameters.
